@@ -1,5 +1,5 @@
-\* exhaustive (quick): 2 objects (+1 born later) on 3 positions, 1 parameter x {unset,1}, 2 cycles x 2 nodes, labels "" < "EOL", <= 3 snapshots
-CONSTANTS NObj = 2  NInit = 1  NLoc = 2  NPar = 1  NVal = 1  MaxC = 1  MaxN = 1  MaxSnaps = 3  MaxLevel = 6
+\* exhaustive (quick): 2 objects (one of them appears later) on 2 positions, 1 parameter x {unset,1}, 2 cycles x 2 nodes, labels "" < "EOL", <= 3 snapshots, depth 5
+CONSTANTS NObj = 2  NInit = 1  NLoc = 2  NPar = 1  NVal = 1  MaxC = 1  MaxN = 1  MaxSnaps = 3  MaxLevel = 5
 CONSTANT Labels <- McLabels
 INIT Init
 NEXT Next
